@@ -25,13 +25,20 @@ const (
 	inflToXLate             // record written by the peer before the export, delivered to the resumed X after the first resumed exchange
 	inflFromXEarly          // ... delivered before any resumed record
 	inflToXEarly
+	// a network duplicate of the peer's last cleartext handshake datagram (its part of the handshake that set the
+	// session up, e.g. the client's ClientKeyExchange flight) reaches the resumed X: after the first resumed
+	// exchange / before any resumed record. Nothing is demanded of its delivery; the resumed side may not answer
+	// it with records under numbers the original already used.
+	inflHSDupLate
+	inflHSDupEarly
 )
 
-var inflNames = [...]string{"none", "fromX-late", "toX-late", "fromX-early", "toX-early"}
+var inflNames = [...]string{"none", "fromX-late", "toX-late", "fromX-early", "toX-early", "hsdup-late", "hsdup-early"}
 
 func (i inflight) String() string { return inflNames[i] }
 func (i inflight) fromX() bool    { return i == inflFromXLate || i == inflFromXEarly }
-func (i inflight) early() bool    { return i == inflFromXEarly || i == inflToXEarly }
+func (i inflight) early() bool    { return i == inflFromXEarly || i == inflToXEarly || i == inflHSDupEarly }
+func (i inflight) hsDup() bool    { return i == inflHSDupLate || i == inflHSDupEarly }
 
 type point struct {
 	Client  bool // exporting side X is the client
@@ -415,7 +422,26 @@ func runScenario(t *testing.T, p *world.PKI, cf config, pt point, mut *mutation,
 		}
 		var held *world.Datagram
 		var heldPayload []byte
-		if pt.Infl != inflNone {
+		var hsDup []byte
+		if pt.Infl.hsDup() {
+			for _, d := range w.Emitted() {
+				if d.Src != peer.Addr || d.ID < pr.FirstID {
+					continue
+				}
+				recs, _ := world.ParseDatagram(d.Data, 0)
+				for _, r := range recs {
+					if !r.Unified && r.Epoch == 0 && r.Type == world.CTHandshake {
+						hsDup = d.Data
+					}
+				}
+			}
+			if hsDup == nil {
+				o.Stage, o.Detail = stPreTraffic, "no cleartext handshake datagram of the peer to duplicate"
+				pr.CloseAll()
+				return
+			}
+		}
+		if pt.Infl != inflNone && !pt.Infl.hsDup() {
 			from := peer
 			if pt.Infl.fromX() {
 				from = x
@@ -576,8 +602,16 @@ func runScenario(t *testing.T, p *world.PKI, cf config, pt point, mut *mutation,
 				o.InflDetail = fmt.Sprintf("in-flight payload modified: wrote %q read %q", heldPayload, got)
 			}
 		}
+		deliverHSDup := func() {
+			w.Push(peer.Addr, nx.Addr, append([]byte(nil), hsDup...))
+			_ = n.Pump(1500*time.Millisecond, nil)
+			o.InflOK = true
+		}
 		if held != nil && pt.Infl.early() {
 			deliverHeld()
+		}
+		if hsDup != nil && pt.Infl.early() {
+			deliverHSDup()
 		}
 		// In the new-address cases the peer learns the address from the resumed side's records (it may
 		// run a return-routability check first): let the network drain after each transfer, a few
@@ -600,6 +634,9 @@ func runScenario(t *testing.T, p *world.PKI, cf config, pt point, mut *mutation,
 			}
 			if round == 1 && held != nil && !pt.Infl.early() {
 				deliverHeld()
+			}
+			if round == 1 && hsDup != nil && !pt.Infl.early() {
+				deliverHSDup()
 			}
 		}
 		if held != nil && o.InflOK {
